@@ -11,6 +11,8 @@ mod fam_retry;
 mod fam_match;
 mod evs;
 mod fam_pipe;
+mod rr;
+mod fam_attempt;
 
 use std::{collections::BTreeMap, collections::HashSet, fs, io::Write as _, path::Path};
 
@@ -25,6 +27,7 @@ fn families() -> Vec<(&'static str, fn(&mut Rng, usize) -> Case)> {
         ("pipe.comb", fam_pipe::gen_comb),
         ("pipe.summ", fam_pipe::gen_summ),
         ("pipe.verdict", fam_pipe::gen_verdict),
+        ("attempt.run", fam_attempt::gen_attempts),
     ]
 }
 
